@@ -502,7 +502,9 @@ class Dense(Monitor):
                 got = sol(tt)
                 err = float(np.max(np.abs(got - yy)))
                 if not rich:
-                    bound = 4 * eps * max(sc, 1e-300)
+                    # the piece's end time may differ from the recorded (rounded) time by the time resolution: slope * ulp(t)
+                    smax = float(max(np.max(np.abs(slopes[j])), np.max(np.abs(slopes[j + 1]))))
+                    bound = 4 * eps * max(sc, 1e-300) + 4 * eps * max(abs(_f(tt)), 1.0) * smax
                     world.ratio(P + ".grid_reproduction", err / bound)
                     if err > bound:
                         world.violate(P, P + ".grid_reproduction", "sol(t[%d]) differs from the recorded state by %.3e (> %.3e), %s end of step %d"
